@@ -1,2 +1,156 @@
-(** C34 — placeholder while the proofs are being written. *)
-From Verif Require Import Base.Prelude Model.C34.
+(** C34 — Configuration sizes and durations round-trip exactly.  Property theorems only.
+
+    Strings are byte lists; [dec n] is the decimal text of n (strconv.AppendUint), [B "kib"]
+    the bytes of a literal.  [marshal t z] is what the configuration layer writes for the
+    value z of type t, [unmarshal t text] is t's UnmarshalText ([None] = error);
+    TV1/TSV1 = toml.SizeV1/SSizeV1, TV2/TSV2 = toml.SizeV2/SSizeV2 (= toml.Size/SSize on
+    this branch), TDur = toml.Duration. *)
+From Verif Require Import Base.Prelude Model.C34
+  Proofs.C34_dec Proofs.C34_float Proofs.C34_size Proofs.C34_v2 Proofs.C34_dur.
+From Coq Require Import String.
+Local Open Scope N_scope.
+Local Open Scope list_scope.
+
+(** SizeV1: every uint64 round-trips through MarshalText / UnmarshalText. *)
+Theorem C34_sizev1_roundtrip :
+  forall n, n < 2 ^ 64 -> unmarshal TV1 (marshal TV1 (Z.of_N n)) = Some (Z.of_N n).
+Proof. exact sizev1_roundtrip. Qed.
+Print Assumptions C34_sizev1_roundtrip.
+
+(** SSizeV1: every int64 (including MinInt64) round-trips. *)
+Theorem C34_ssizev1_roundtrip :
+  forall z, (- 2 ^ 63 <= z < 2 ^ 63)%Z -> unmarshal TSV1 (marshal TSV1 z) = Some z.
+Proof. exact ssizev1_roundtrip. Qed.
+Print Assumptions C34_ssizev1_roundtrip.
+
+(** Duration: every int64 nanosecond count (negative ones and MinInt64 included)
+    round-trips through time.Duration.String / time.ParseDuration. *)
+Theorem C34_duration_roundtrip :
+  forall z, (- 2 ^ 63 <= z < 2 ^ 63)%Z -> unmarshal TDur (marshal TDur z) = Some z.
+Proof. exact duration_roundtrip. Qed.
+Print Assumptions C34_duration_roundtrip.
+
+(** 1.x suffix meaning and overflow on SizeV1, for ALL uint64 mantissas, any run of
+    whitespace [ws] between digits and suffix, suffix k/K/m/M/g/G or none: the result is
+    exactly n * 2^10/20/30, and a product that does not fit uint64 is REJECTED, never wrapped. *)
+Theorem C34_v1_suffix_meaning_and_overflow :
+  forall n ws sfx, n < 2 ^ 64 -> tail_ok ws sfx ->
+    unmarshal TV1 (dec n ++ ws ++ sfx_bytes sfx) =
+    if n * sfx_mult sfx <? 2 ^ 64 then Some (Z.of_N (n * sfx_mult sfx)) else None.
+Proof. exact unmarshal_v1_unsigned. Qed.
+Print Assumptions C34_v1_suffix_meaning_and_overflow.
+
+(** The same for SSizeV1 and all int64 mantissas (sign included). *)
+Theorem C34_sv1_suffix_meaning_and_overflow :
+  forall z ws sfx, (- 2 ^ 63 <= z < 2 ^ 63)%Z -> tail_ok ws sfx ->
+    unmarshal TSV1 (dec_z z ++ ws ++ sfx_bytes sfx) =
+    let r := (z * Z.of_N (sfx_mult sfx))%Z in
+    if ((- 2 ^ 63 <=? r) && (r <? 2 ^ 63))%Z then Some r else None.
+Proof. exact unmarshal_v1_signed. Qed.
+Print Assumptions C34_sv1_suffix_meaning_and_overflow.
+
+(** The multipliers really are the documented ones. *)
+Theorem C34_bare_suffix_values :
+  sfx_mult None = 1 /\
+  sfx_mult (Some 107) = 2 ^ 10 /\ sfx_mult (Some 75) = 2 ^ 10 /\
+  sfx_mult (Some 109) = 2 ^ 20 /\ sfx_mult (Some 77) = 2 ^ 20 /\
+  sfx_mult (Some 103) = 2 ^ 30 /\ sfx_mult (Some 71) = 2 ^ 30.
+Proof. repeat split. Qed.
+Print Assumptions C34_bare_suffix_values.
+
+(** FULL STATEMENT "1.x bare k/m/g are binary on SizeV1/SSizeV1 wherever whitespace is
+    allowed" is refuted by the mirror: after a leading newline SSizeV1 reads "1k" as 1000
+    (bareIECSuffixRe's [.] does not cross '\n', so the text reaches humanize unrewritten),
+    while after a leading space it reads 1024.  Confirmed on the real code (known finding
+    ssizev1-bare-suffix-after-newline-is-decimal). *)
+Theorem C34_v1_suffix_meaning_refuted :
+  unmarshal TSV1 [10; 49; 107] = Some 1000%Z /\ unmarshal TSV1 [32; 49; 107] = Some 1024%Z.
+Proof. exact ssizev1_newline_witness. Qed.
+Print Assumptions C34_v1_suffix_meaning_refuted.
+
+(** Explicit units as named (every entry of humanize's table: kb = 10^3, kib = 2^10, ...,
+    bare k/m/g/t/p/e = SI on SizeV2): exact while the product stays below 2^53. *)
+Theorem C34_named_units_partial :
+  forall n name m, In (name, m) size_table -> n * m < 2 ^ 53 ->
+    unmarshal TV2 (dec n ++ name) = Some (Z.of_N (n * m)).
+Proof.
+  intros n name m Hin Hlt. cbn [unmarshal]. unfold unmarshal_v2.
+  rewrite (named_units_exact n name m Hin Hlt). reflexivity.
+Qed.
+Print Assumptions C34_named_units_partial.
+
+(** FULL STATEMENT (SizeV2 = toml.Size, the active type on this branch):
+      forall n < 2^64, unmarshal TV2 (marshal TV2 n) = Some n.
+    REFUTED by the mirror (humanize parses through float64): 2^53+1 is written as
+    "9007199254740993" and read back as 9007199254740992; SSize(MaxInt64) is written and
+    then rejected.  Confirmed on the real code (known finding
+    size-above-2p53-not-representable). *)
+Theorem C34_sizev2_roundtrip_refuted :
+  (exists n, n < 2 ^ 64 /\ unmarshal TV2 (marshal TV2 (Z.of_N n)) <> Some (Z.of_N n)) /\
+  (exists z, (- 2 ^ 63 <= z < 2 ^ 63)%Z /\ unmarshal TSV2 (marshal TSV2 z) <> Some z).
+Proof.
+  split.
+  - exists 9007199254740993. split; [reflexivity|].
+    change (Z.of_N 9007199254740993) with 9007199254740993%Z.
+    rewrite sizev2_witness. discriminate.
+  - exists 9223372036854775807%Z. split; [split; [discriminate|reflexivity]|].
+    rewrite ssizev2_witness. discriminate.
+Qed.
+Print Assumptions C34_sizev2_roundtrip_refuted.
+
+(** Strongest true weakening: every value whose magnitude fits a 53-bit significand
+    ([repr53]: all values up to 2^53, and beyond them the multiples of 2^(log2 n - 52), e.g.
+    every whole number of KiB up to 8 EiB) round-trips on SizeV2 and SSizeV2. *)
+Theorem C34_sizev2_roundtrip_partial :
+  (forall n, n < 2 ^ 64 -> repr53 n = true ->
+     unmarshal TV2 (marshal TV2 (Z.of_N n)) = Some (Z.of_N n)) /\
+  (forall z, (- 2 ^ 63 <= z < 2 ^ 63)%Z -> repr53 (Z.to_N (Z.abs z)) = true ->
+     unmarshal TSV2 (marshal TSV2 z) = Some z) /\
+  (forall n, n < 2 ^ 53 -> repr53 n = true).
+Proof.
+  split; [|split].
+  - intros n Hn Hr. cbn [marshal unmarshal]. unfold dec_z.
+    destruct (Z.of_N n <? 0)%Z eqn:E; [lia|]. rewrite N2Z.id. apply sizev2_roundtrip_repr; assumption.
+  - intros z Hz Hr. apply ssizev2_roundtrip_repr; assumption.
+  - exact repr53_small.
+Qed.
+Print Assumptions C34_sizev2_roundtrip_partial.
+
+(** Through a TOML document a SizeV2 of 2^63 or more cannot be read back at all although it
+    is exactly representable: the encoder writes a bare integer beyond TOML's int64.
+    Confirmed on the real code (known finding sizev2-above-maxint64-unreadable-from-toml). *)
+Theorem C34_sizev2_toml_roundtrip_refuted :
+  unmarshal_toml TV2 9223372036854775808 (marshal TV2 9223372036854775808) = None
+  /\ repr53 9223372036854775808 = true.
+Proof. exact sizev2_toml_witness. Qed.
+Print Assumptions C34_sizev2_toml_roundtrip_refuted.
+
+(** FULL STATEMENT "a duration text whose exact value overflows int64 is rejected" is
+    REFUTED by the mirror of time.ParseDuration: the uint64 accumulator wraps when a running
+    sum of exactly 2^63 ns meets a component of exactly 2^63 ns.
+    "9223372036854775808ns9223372036854775808ns" (exact value 2^64 ns) parses to 0.
+    Confirmed on the real code (known finding duration-sum-wraps-at-2p64).  The round-trip
+    theorem above is unaffected (Duration.String never produces such texts). *)
+Theorem C34_duration_overflow_rejected_refuted :
+  let s := dec 9223372036854775808 ++ B "ns" ++ dec 9223372036854775808 ++ B "ns" in
+  unmarshal TDur s = Some 0%Z /\ dur_exact s = Some (false, 2 ^ 64, 2 ^ 64, 2).
+Proof. exact duration_wrap_witness. Qed.
+Print Assumptions C34_duration_overflow_rejected_refuted.
+
+(** The overflowing SSize text "-9223372036854775809" is accepted as MinInt64 (same float
+    path; carries the 2^53 finding's signature). *)
+Theorem C34_ssizev2_overflow_accepted_refuted :
+  unmarshal TSV2 (45 :: dec 9223372036854775809) = Some (- 9223372036854775808)%Z.
+Proof. exact ssizev2_overflow_accepted_witness. Qed.
+Print Assumptions C34_ssizev2_overflow_accepted_refuted.
+
+(** Non-vacuity: concrete texts and values. *)
+Example C34_nonvacuous :
+  marshal TV1 3221225472 = B "3g" /\ unmarshal TV1 (B "3g") = Some 3221225472%Z /\
+  marshal TSV1 (- 1536)%Z = 45 :: B "1536" /\
+  unmarshal TV1 (B "1 K ") = Some 1024%Z /\ unmarshal TV2 (B "1k") = Some 1000%Z /\
+  unmarshal TV1 (B "17179869184g") = None /\
+  marshal TDur 5400000000001 = B "1h30m0.000000001s" /\
+  marshal TDur (- 9223372036854775808)%Z = 45 :: B "2562047h47m16.854775808s" /\
+  tail_ok [32; 9] (Some 75) /\ repr53 (2 ^ 60 + 2 ^ 10) = true /\ repr53 (2 ^ 53 + 1) = false.
+Proof. repeat split; vm_compute; reflexivity. Qed.
